@@ -938,7 +938,8 @@ class Module(ABC):
                 }
             ]
             if param_state is not None:
-                param_state += added_param_state
+                # Build a new list: `+=` would modify the list of the caller.
+                param_state = param_state + added_param_state
             else:
                 param_state = added_param_state
         else:
